@@ -20,7 +20,9 @@ V(o, cl, k) == [id |-> o.id, clause |-> cl, k |-> k]
 Between(a, x, b) == (a <= x /\ x <= b) \/ (b <= x /\ x <= a)
 CheckCase(o) ==
     {V(o, "C06.QueryAnsweredByContainingStep", k) : k \in {k \in 1..Len(o.queries) :
-            o.queries[k].inRange /\ ~Between(o.queries[k].lo, o.queries[k].q, o.queries[k].hi)}}
+            o.queries[k].inRange /\ ~Between(o.queries[k].lo, o.queries[k].q, o.queries[k].hi)
+            \* the pieces of a Richardson wrapper end at the sum of its sub-steps: a recorded time may lie a few rounding units beyond
+            /\ (o.rich => o.queries[k].outUnits > UlpFew)}}
     \cup {V(o, "C06.RecordedStateReproduced", k) : k \in {k \in 1..Len(o.queries) :
             o.queries[k].kind = "grid" /\ (IF o.rich THEN o.queries[k].tolUnits > DenseRichTolUnits ELSE ~o.queries[k].exact)}}
     \cup {V(o, "C06.ScalarAndArrayQueriesAgree", k) : k \in {k \in 1..Len(o.queries) : ~o.queries[k].vecAgree}}
